@@ -38,6 +38,10 @@ CHECKS['C20'] = dict(tech='grammar-based Hypothesis command streams with generat
              text='CMDRequest and CMDResponse are driven with generated well-formed command streams (1..10 hex digits, separators, idle gaps, consumer stalls); the ordered log of one-cycle action pulses with their values, the number of clock pulses, and the response characters collected at valid&ready edges must equal the reference exactly. Exploration (sampled).',
              note='Trusted: the reference codec in pbt/props/c20.py. Host waits for each response; consumer ready independent of valid; bounded cycle budget for liveness.',
              ref='DESIGN.md 2/C20')
+CHECKS['C17'] = dict(tech='Hypothesis link configurations (ratio, bytes, gaps, consumer pacing) with a history oracle (accepted log = delivered log) and an independent software 8N1 receiver over the recorded line',
+             text='Serializer, clock generation/recovery and deserializer are looped back; the log of bytes accepted at the serializer port must equal the log delivered at the deserializer port, and a software 8N1 receiver sampling the recorded tx trace mid-bit must recover the same bytes; all 256 byte values are sent at several ratios. Exploration (sampled; bounded liveness).',
+             note='Trusted: the software receiver and handshake logger in pbt/props/c17.py. Realised bit period 2*floor(r/2); consumer stalls shorter than half a frame.',
+             ref='DESIGN.md 2/C17')
 NOT_APPLICABLE = {}
 
 def main():
